@@ -178,4 +178,40 @@ theorem scanSequences_spec (vblankCmp valid shrink : Bool) (s : Tok) (w : World)
         · exact ⟨by rw [b3, b2], ⟨_, rfl, hO3⟩, fun h => (hno h).elim, fun h => by simp at h⟩
         · exact ⟨by rw [b3, b2], ⟨_, rfl, hO3⟩, fun h => (hno h).elim, fun h => by simp at h⟩
 
+/-- xmp_set_player(XMP_PLAYER_MODE) for every allocation oracle and every outcome of the two scans.
+`w1` is the world after the first rescan (the allocator's future when the second one starts). -/
+theorem setPlayerMode_spec (new old : ScanP) (oldMode newMode : Nat) (s : Tok) (w : World) (B : List Tok)
+    (hO : OwnsScan s w B) :
+    let r := setPlayerMode new old oldMode newMode (some s) w
+    let w1 := (scanSequences new.vblankCmp new.valid new.shrink (some s) w).2.2
+    r.2.2.2.2.bad = w.bad ∧ (∃ s', r.2.2.2.1 = some s' ∧ OwnsScan s' r.2.2.2.2 B) ∧
+    (r.1 < 0 → r.1 = errInvalid ∧ r.2.1 = oldMode ∧ (w.oracle.headD true = false ∨ new.valid = false) ∧
+       (old.valid = true → w1.oracle.headD true = true → r.2.2.1 = true)) ∧
+    (¬ r.1 < 0 → r.1 = 0 ∧ r.2.1 = newMode ∧ r.2.2.1 = true ∧ new.valid = true) := by
+  unfold setPlayerMode
+  obtain ⟨b1, ⟨s1, e1, hO1⟩, _, g1⟩ := scanSequences_spec new.vblankCmp new.valid new.shrink s w B hO
+  generalize hr : scanSequences new.vblankCmp new.valid new.shrink (some s) w = r1 at b1 e1 hO1 g1
+  by_cases h : r1.1 < 0
+  · simp only [h, if_true]
+    rw [e1]
+    obtain ⟨b2, ⟨s2, e2, hO2⟩, _, g2⟩ := scanSequences_spec old.vblankCmp old.valid old.shrink s1 r1.2.2 B hO1
+    refine ⟨by rw [b2, b1], ⟨s2, e2, hO2⟩, fun _ => ⟨by triv, by triv, g1 h, fun hv hh => ?_⟩,
+      fun hn => absurd (by decide : errInvalid < 0) hn⟩
+    by_cases hneg : (scanSequences old.vblankCmp old.valid old.shrink (some s1) r1.2.2).1 < 0
+    · rcases g2 hneg with x | x
+      · rw [hh] at x; exact absurd x (by decide)
+      · rw [hv] at x; exact absurd x (by decide)
+    · simp [hneg]
+  · simp only [h, if_false]
+    refine ⟨b1, ⟨s1, e1, hO1⟩, fun hn => by simp at hn, fun _ => ⟨by triv, by triv, by triv, ?_⟩⟩
+    cases hv : new.valid
+    · exfalso
+      apply h
+      rw [← hr]
+      unfold scanSequences
+      split
+      · simp
+      · simp [hv]
+    · rfl
+
 end Xmp.Resource
